@@ -40,7 +40,7 @@ def run(c):
 
     rounds = 3 if c.tier == "quick" else 40
     tf = os.path.join(c.scratch, "ids-trace.ndjson")
-    c.vh(["ids-trace", tf, rounds], timeout=1800)
+    c.vh(["ids-trace", tf, rounds, c.build_gitbug()], timeout=1800)
     lines = [l.rstrip("\n") for l in open(tf)]
     # sessions are delimited by Pop events: validate, dropping a rejected Resolve line and going on
     n_ok, failures = tv.validate_dropping(c, "IdsTrace", "IdsTrace.cfg", lines, "ids")
@@ -83,7 +83,7 @@ def replay(c, rep):
         return
     # resolution depends on a freshly engineered population: re-run one session and validate it
     tf = os.path.join(c.scratch, "ids-trace.ndjson")
-    c.vh(["ids-trace", tf, 1])
+    c.vh(["ids-trace", tf, 1, c.build_gitbug()])
     lines = [l.rstrip("\n") for l in open(tf)]
     n_ok, failures = tv.validate_dropping(c, "IdsTrace", "IdsTrace.cfg", lines, "ids")
     for ev, reason in failures:
